@@ -34,7 +34,7 @@ func maps() []mkMap {
 type call struct {
 	write  bool
 	key    interface{}
-	ctx    int  // 0: background-like never cancelled; >0: index of a cancellable context
+	ctx    int    // 0: background-like never cancelled; >0: index of a cancellable context
 	holdOn string // "" = release after one Yield; otherwise the name of an event to wait for before releasing
 	signal string // event raised right after entering
 }
